@@ -219,8 +219,9 @@ func H_C12_alias(t *verifrt.T) {
 		// keep the member a plain string literal: one class per byte
 		t.Assume(verifrt.And(body[i] >= 'a', body[i] <= 'z'))
 	}
-	data := append([]byte(`{"s":"`), body...)
-	data = append(data, `","r":[1],"b":"QUJD"}`...)
+	// the base64 member comes first: the other members' text lies behind it in the input
+	data := append([]byte(`{"b":"QUJD","s":"`), body...)
+	data = append(data, `","r":[1]}`...)
 	slack := t.Choice("cap-slack", 2)
 	buf := make([]byte, len(data), len(data)+slack)
 	copy(buf, data)
